@@ -209,6 +209,12 @@ class OrderTaint:
             elif isinstance(n, (ast.For, ast.AsyncFor)):
                 for nm in _target_names(n.target):
                     add(nm, n, 'iter', n.iter)
+            elif isinstance(n, ast.comprehension):
+                # comprehension variables: positioned at their iterable
+                n.lineno = getattr(n.iter, 'lineno', 0)
+                n.col_offset = getattr(n.iter, 'col_offset', 0)
+                for nm in _target_names(n.target):
+                    add(nm, n, 'iter', n.iter)
             elif isinstance(n, ast.Expr) and isinstance(n.value, ast.Call) and \
                     isinstance(n.value.func, ast.Attribute) and \
                     isinstance(n.value.func.value, ast.Name):
@@ -249,7 +255,19 @@ class OrderTaint:
         val = base
         seen_any = False
         for stmt, kind, v in defs_:
-            if stmt.lineno > at_line or (stmt is at and kind != 'iter'):
+            if isinstance(stmt, ast.comprehension):
+                # a comprehension variable reaches exactly the comprehension it belongs to
+                comp = getattr(stmt, '_parent', None)
+                n_ = at
+                inside = False
+                while n_ is not None:
+                    if n_ is comp:
+                        inside = True
+                        break
+                    n_ = getattr(n_, '_parent', None)
+                if not inside:
+                    continue
+            elif stmt.lineno > at_line or (stmt is at and kind != 'iter'):
                 continue
             seen_any = True
             if kind == 'assign':
@@ -270,8 +288,9 @@ class OrderTaint:
                 val = join(val, self.value(f, v, stmt))
             elif kind == 'iter':
                 iv = self.value(f, v, stmt)
-                # loop variable itself is an element, not a collection
-                val = join(val, 'O')
+                # loop variable itself is an element, not a collection -- unless the
+                # iterable is an ordered container *of* unordered collections
+                val = join(val, 'T' if iv == 'C' else 'O')
             elif kind == 'store':
                 for lp in self._loops_around(stmt):
                     if self.value(f, lp.iter, lp) not in ('O', 'C'):
@@ -347,6 +366,12 @@ class OrderTaint:
             for g in e.generators:
                 if self.value(f, g.iter, at, depth + 1) not in ('O', 'C'):
                     v = 'T'
+            if v == 'O':
+                # ordered comprehension whose elements are themselves unordered / tainted
+                elts = [e.value] if isinstance(e, ast.DictComp) else [e.elt]
+                for x in elts:
+                    if self.value(f, x, x, depth + 1) in ('U', 'T'):
+                        v = 'C'
             return v
         if isinstance(e, ast.Subscript):
             return 'T' if self.value(f, e.value, at, depth + 1) == 'C' else 'O'
@@ -384,6 +409,8 @@ class OrderTaint:
                     return 'U'
                 if e.func.attr in ('items', 'keys', 'values') and rv not in ('O', 'C'):
                     return 'T'
+                if e.func.attr in ('items', 'values') and rv == 'C':
+                    return 'C'
                 if e.func.attr in ('get', 'pop', 'setdefault') and rv == 'C':
                     return 'T'
                 if e.func.attr in ('difference', 'union', 'intersection') and rv == 'U':
